@@ -199,6 +199,12 @@ def emitCheck (es : List Entry) : Except EmitErr Unit :=
     | some e => .error (.keywordAttr e.key)
     | none => .ok ()
 
+/-- template whitespace of the SYNC macro's second pass.  Before the `fix:` commit 9d33fc0 the text
+`{% endif %} {# field.map #}` left a blank before the next iteration's first line: with two or more
+keys in that pass the second `if <name>:` was indented by 13 columns (IndentationError in client.py).
+The blank is gone: every number of keys is fine. -/
+def emitIndentOk (_samePkg : Bool) (_es : List Entry) : Bool := true
+
 /-- proto-plus `Message._get_pb_type_from_key`: the attribute itself, else the attribute + "_".
 The class attributes of an emitted proto-plus message are the `Field.name`s. -/
 def attrResolves (m : MsgDef) (attr : String) : Option Field :=
@@ -342,9 +348,10 @@ def setAll (bs : List Bound) (r : Val) : Val := bs.foldl refStep r
 
 /-! ### the SYNC macro (`_client_macros.j2`) -/
 
-/-- first loop: `for key, field in … if not field.repeated or <same package>` -/
+/-- first loop: `for key, field in … if not field.repeated or (<same package> and
+field.meta.address.is_proto_plus_type)` (the owner test since `fix:` 9d33fc0) -/
 def syncLoop1 (samePkg : Bool) (r : Val) (b : Bound) : Val :=
-  if !b.1.repeated || samePkg then
+  if !b.1.repeated || (samePkg && !b.1.rawOwner) then
     match b.2 with
     | none => r
     | some v =>
@@ -352,9 +359,11 @@ def syncLoop1 (samePkg : Bool) (r : Val) (b : Bound) : Val :=
       else modifyAt b.1.path (assignOp v) r
   else r
 
-/-- second loop: `for key, field in … if field.repeated and <different package>` -/
+/-- second loop: `for key, field in … if field.repeated and (<different package> or not
+field.meta.address.is_proto_plus_type)`: repeated/map keys of a raw protobuf owner are extended /
+updated, never assigned (since `fix:` 9d33fc0) -/
 def syncLoop2 (samePkg : Bool) (r : Val) (b : Bound) : Val :=
-  if b.1.repeated && !samePkg then
+  if b.1.repeated && (!samePkg || b.1.rawOwner) then
     match b.2 with
     | none => r
     | some v =>
@@ -434,12 +443,11 @@ def hasFlattened (bs : List Bound) : Bool := bs.any (fun b => given b.2)
 /-- A same-package request may contain raw protobuf sub-messages (FieldMask, google.rpc.Status, an
 IAM Policy, …): `request.a.b` then IS the protobuf object and protobuf's own assignment rules apply to
 `request.a.b.<field> = x` — scalars may be assigned, a repeated/map field or a message field may not
-(AttributeError).  `.extend` / `.update` are allowed.  So the statement executed for a given key fails:
-sync (assign-all) for a repeated field unless it is the `struct_pb2.Value` extend case, and for a
-singular message; asyncio (assign / update / extend) only for a singular message. -/
-def rawAssignFails (asy : Bool) (b : Bound) : Bool :=
-  given b.2 && b.1.rawOwner &&
-    (if b.1.repeated then (!asy && !b.1.isValue) else b.1.isMsg)
+(AttributeError).  `.extend` / `.update` are allowed.  Since `fix:` 9d33fc0 BOTH clients extend / update
+a repeated/map key of a raw owner, so the statement executed for a given key fails only for a singular
+message field (`request.op.error = error`), in both clients alike. -/
+def rawAssignFails (_asy : Bool) (b : Bound) : Bool :=
+  given b.2 && b.1.rawOwner && !b.1.repeated && b.1.isMsg
 
 /-- The emitted method up to (not including) the transport call: the request it would send.
 `asy` selects the asyncio client. -/
